@@ -28,6 +28,7 @@ def scenario(rng, ticks):
     ops = c["ops"]
     multi = rng.random() < 0.25
     plan = {}
+    early = set()   # entries whose only lookup before the first sweep comes a few seconds after delivery
     for rt in ("lds", "rds", "cds", "eds"):
         # the same name occurs in several types (a cluster and its endpoint set usually share their name)
         pool = ["l1", "l2", "l3"] if rt == "lds" else g.NAMES[rt][:3] + ["shared"]
@@ -53,6 +54,8 @@ def scenario(rng, ticks):
             idle = rng.random() < 0.5 and idle_budget > 0
             if idle:
                 idle_budget -= 1
+            elif rng.random() < 0.35:
+                early.add((rt, n))
             plan[(rt, n)] = idle
     if lds_warm:
         plan[("lds", "virtualInbound")] = rng.random() < 0.5      # the reserved listener: idle or not, it must stay
@@ -60,10 +63,18 @@ def scenario(rng, ticks):
     for (rt, n), idle in plan.items():
         if idle:
             ops.append({"op": "backdate", "rt": rt, "name": n, "ms": 60000})
+        elif (rt, n) in early:
+            # the entry is a little older than the manager (as after a restart of the sweeper); a lookup a few seconds
+            # later must still count for the whole expiry period
+            ops.append({"op": "backdate", "rt": rt, "name": n, "ms": 3000})
+    if early:
+        ops.append({"op": "sleep_until", "ms": rng.choice([5000, 6000, 7000])})
+        for (rt, n) in sorted(early):
+            ops.append({"op": "lookup", "rt": rt, "name": n})
     for k in range(1, ticks + 1):
         ops.append({"op": "sleep_until", "ms": 30000 * k - rng.choice([8000, 6500, 5000])})
         for (rt, n), idle in plan.items():
-            if not idle:
+            if not idle and not (k == 1 and (rt, n) in early):
                 ops.append({"op": "lookup", "rt": rt, "name": n})
         # the control plane pushes again shortly before the sweep: an update is not a lookup, idle entries stay idle
         for rt in ("lds", "rds", "cds", "eds"):
